@@ -18,6 +18,10 @@ if [ ! -f "$B/libsymfp_rt.so" ] || [ "$S/rt.cpp" -nt "$B/libsymfp_rt.so" ] || [ 
   clang++-14 -shared -fPIC -O2 -std=c++17 -I"$S" "$S/rt.cpp" -o "$B/libsymfp_rt.so.tmp" -lpthread
   mv "$B/libsymfp_rt.so.tmp" "$B/libsymfp_rt.so"
 fi
+if [ ! -f "$B/libsymfp_lapack.so" ] || [ "$S/lapack_model.cpp" -nt "$B/libsymfp_lapack.so" ] || [ "$B/libsymfp.so" -nt "$B/libsymfp_lapack.so" ]; then
+  SYMFP_BUILD="$B" "$S/symfp-clang++" -shared -fPIC -O2 -std=c++17 "$S/lapack_model.cpp" -o "$B/libsymfp_lapack.so.tmp" -L"$B" -lsymfp_rt -Wl,-rpath,"$B"
+  mv "$B/libsymfp_lapack.so.tmp" "$B/libsymfp_lapack.so"
+fi
 if [ ! -f "$B/symfp/build.ninja" ]; then
   mkdir -p "$B/symfp"
   SYMFP_BUILD="$B" cmake -G Ninja -S "$REPO" -B "$B/symfp" \
